@@ -694,7 +694,7 @@ def run(chk: Check):
             json.dump({"violations": [{"key": v["key"], "what": v["what"]} for v in chk.violations],
                        "corr_broken": corr_broken[:50], "notes": notes}, fh, indent=1)
     chk.assumptions += [
-        "the Glynn/BBFG identity with multiplicities is a Section hypothesis of the *_partial theorem (see manifest); every other step from the C++ loop to the defining sum is proved",
+        "the chain from the C++ loop to the defining permanent (loop invariants, Gray bijection, job partition, Glynn/BBFG identity with multiplicities) is proved for every commutative ring; the model is tied to the code by the differential run only",
         "g++/OpenMP compile the C++ sources as written; std::thread::hardware_concurrency is interposed by the driver",
         "the pybind glue and the shipped .so are exercised but cannot be rebuilt here (divergences are notes)",
         "float rounding: tolerance 1e-9(1+|v|) + 64 n eps S (float64), 2e-4(1+|v|) + 64 n eps S (float32), S = prod_j (sum_i r_i|a_ij|)^c_j",
